@@ -983,6 +983,41 @@ func (regWorld) Exec(prop string, t *Trace) *Result {
 			}
 		case "dispatch":
 			p := &probes[op.A%len(probes)]
+			// whatever the document declares: decoding it into a fresh NewClaims instance of a built-in
+			// profile and into a zero-value instance of the same type must give the same claims
+			// (a decode overwrites what the receiver held, it does not merge with it)
+			if c07 {
+				for _, bk := range []string{"p1", "p2"} {
+					bn := map[string]string{"p1": psatoken.Profile1Name, "p2": psatoken.Profile2Name}[bk]
+					func() {
+						defer func() { _ = recover() }()
+						fresh, err := psatoken.NewClaims(bn)
+						if err != nil {
+							return
+						}
+						zero := zeroInstance(bk, bn)
+						dec := func(c psatoken.IClaims) error {
+							u := c.(unmarshalBoth)
+							switch p.ser {
+							case "cbor":
+								return u.UnmarshalCBOR(append([]byte{}, p.doc...))
+							case "cose":
+								return u.UnmarshalCBOR(append([]byte{}, p.payload...))
+							}
+							return u.UnmarshalJSON(append([]byte{}, p.doc...))
+						}
+						e1, e2 := dec(fresh), dec(zero)
+						res.Evals++
+						if (e1 == nil) != (e2 == nil) {
+							res.violate("C07", "decode-merges-with-receiver-state", "", i, "%s: decoding into NewClaims(%q) gives err=%v, into a zero-value %s instance err=%v", p.name, bn, e1, bk, e2)
+						} else if e1 == nil {
+							if a, b := getterObs(fresh), getterObs(zero); a != b {
+								res.violate("C07", "decode-merges-with-receiver-state", "", i, "%s decoded into NewClaims(%q) and into a zero-value %s instance differ:\n NewClaims: %s\n zero:      %s", p.name, bn, bk, a, b)
+							}
+						}
+					}()
+				}
+			}
 			base := dispatch(p)
 			shape += "D" + p.ser
 			checkDispatch(i, p, base)
@@ -1142,17 +1177,19 @@ func init() {
 }
 
 // zeroInstance returns a claims object of the kind's type that carries nothing
-// but its canonical profile (no preset profile claim, no container).
+// but its canonical profile and an empty component container (no preset profile claim).
 func zeroInstance(kind, name string) psatoken.IClaims {
+	// (an empty component container is part of being able to decode at all)
+	cont := func() psatoken.ISwComponents { return &psatoken.SwComponents[*psatoken.SwComponent]{} }
 	switch kind {
 	case "p1":
-		return &psatoken.P1Claims{CanonicalProfile: psatoken.Profile1Name}
+		return &psatoken.P1Claims{CanonicalProfile: psatoken.Profile1Name, SwComponents: cont()}
 	case "p2":
-		return &psatoken.P2Claims{CanonicalProfile: psatoken.Profile2Name}
+		return &psatoken.P2Claims{CanonicalProfile: psatoken.Profile2Name, SwComponents: cont()}
 	case "xp1", "xp1n":
-		return &XP1Claims{P1Claims: psatoken.P1Claims{CanonicalProfile: name}}
+		return &XP1Claims{P1Claims: psatoken.P1Claims{CanonicalProfile: name, SwComponents: cont()}}
 	case "xp2":
-		return &XP2Claims{P2Claims: psatoken.P2Claims{CanonicalProfile: name}}
+		return &XP2Claims{P2Claims: psatoken.P2Claims{CanonicalProfile: name, SwComponents: cont()}}
 	}
 	return nil
 }
